@@ -34,7 +34,7 @@ RULE = ("seeded histories of 1-40 updates x queries; distinct = canonical histor
 REQUIRED_BUCKETS = ["container:list", "container:numpy", "update-rejected-too-old", "update-out-of-order",
                     "jump-beyond-capacity", "off-grid-update", "half-period-tie", "missing-value-written",
                     "gap-split", "eviction", "query-unaligned", "query-same-slot", "query-index-negative",
-                    "query-index-out-of-range", "at-index", "at-timestamp", "at-gap-slot", "at-out-of-range",
+                    "query-index-out-of-range", "at-index", "at-timestamp", "at-timestamp-unaligned", "at-gap-slot", "at-out-of-range",
                     "moving-window"]
 REQUIRED_COUNTERS = ["updates_checked", "window_queries_checked", "at_queries_checked", "gap_invariant_checks"]
 ASSUMPTIONS = ["timestamps exact to the microsecond; values unique per write"]
@@ -394,6 +394,34 @@ def _moving_window(case: dict[str, Any], accepted: list[Any], rec: Any, align: d
                         rec.bucket("at-gap-slot")
                     if not _same(exp, got):
                         rec.violation("at-timestamp-returns-data-of-another-or-evicted-slot", {**wq, "expected": exp})
+                # single-slot reads with timestamps off the slot grid
+                for _ in range(4):
+                    k = qr.randint(eo - 1, newest + 1)
+                    off = qr.choice([0.3, -0.3, 0.4, -0.4, 0.49, -0.49, 0.1, -0.1])
+                    key = align + timedelta(microseconds=round((k + off) * period * 1e6))
+                    rec.count("at_queries_checked")
+                    rec.bucket("at-timestamp-unaligned")
+                    try:
+                        got = mw.at(key) if qr.random() < 0.5 else mw[key]
+                        raised = False
+                    except IndexError:
+                        raised, got = True, None
+                    lo_s, hi_s = math.floor(k + off), math.ceil(k + off)
+                    inside_raw = eo <= k + off <= newest
+                    wq = {**w0, "at_time_in_slots": k + off, "got": got, "raised": raised}
+                    if raised:
+                        if inside_raw:
+                            rec.violation("at-unaligned-timestamp-in-range-raises", wq)
+                        continue
+                    if not (eo <= lo_s <= newest or eo <= hi_s <= newest):
+                        rec.violation("at-unaligned-timestamp-out-of-range-does-not-raise", wq)
+                        continue
+                    ok_vals = [valid.get(sl, math.nan) for sl in (lo_s, hi_s) if eo <= sl <= newest]
+                    if any(sl not in valid for sl in (lo_s, hi_s) if eo <= sl <= newest):
+                        rec.bucket("at-gap-slot")
+                    if not any(_same(x, got) for x in ok_vals):
+                        rec.violation("at-unaligned-timestamp-returns-data-of-another-or-evicted-slot",
+                                      {**wq, "accepted": ok_vals})
                 # slices
                 a, b = qr.randint(-cc - 1, cc + 1), qr.randint(-cc - 1, cc + 1)
                 full = [valid.get(k, math.nan) for k in range(eo, newest + 1)]
